@@ -290,8 +290,8 @@ static Plan gen_plan(uint64_t seed, int min_clients)
 static const uint8_t SW_START = 255;
 static const uint32_t SW_AT_END = 0xffffffffu;
 struct Switch { uint8_t from; uint32_t idx; uint8_t to; };   // from = SW_START: who runs first; idx = SW_AT_END: when from's call returns
-struct Segment { std::vector<int> items; std::vector<Switch> script; unsigned den; int budget; std::vector<uint8_t> respawn; };
-struct Schedule { int clients; std::vector<Item> items; std::vector<Segment> segs; };
+struct Segment { std::vector<int> items; std::vector<Switch> script; unsigned den; int budget; std::vector<uint8_t> respawn; std::vector<uint64_t> focus; };
+struct Schedule { int clients; std::vector<Item> items; std::vector<Segment> segs; bool log_access = false; };
 
 using Respawns = std::vector<std::pair<uint32_t, uint8_t>>;      // (before the segment that holds item #first, restart client #second)
 static Schedule serial_schedule(const std::vector<Item> & items, const std::vector<int> & order, int clients, const Respawns & rs = Respawns())
@@ -341,6 +341,7 @@ static Schedule fine_schedule(const Plan & p, uint64_t sched_seed)
 struct Res { uint32_t status; uint32_t pad; uint64_t bits; };      // status 0 = returned, else signal number, 255 = not executed
 static inline bool same(const Res & x, const Res & y) { return x.status == y.status && (x.status != 0 || x.bits == y.bits); }
 struct TraceRec { uint32_t seg; uint32_t from; uint32_t idx; uint32_t to; };
+struct AccessRec { uint32_t item; uint32_t is_write; uint64_t addr; };     // one distinct non-stack address touched by one call
 
 static thread_local sigjmp_buf tl_env;
 static thread_local volatile sig_atomic_t tl_armed = 0;
@@ -348,6 +349,11 @@ static thread_local int tl_client = -1;
 static thread_local bool tl_in_call = false;
 static thread_local uintptr_t tl_stack_lo = 0, tl_stack_hi = 0;
 static thread_local uint32_t tl_yield_idx = 0;
+static thread_local int tl_item = -1;
+static bool g_log_access = false;
+static std::vector<AccessRec> g_access;
+static const size_t ACCESS_PER_CALL = 96, ACCESS_TOTAL = 400000;
+static thread_local size_t tl_access_begin = 0;
 
 static void on_signal(int sig)
   {
@@ -369,6 +375,7 @@ static struct
   Rng rng;
   unsigned den = 0; int budget = 0;
   const std::vector<Switch> * script = nullptr;
+  const std::vector<uint64_t> * focus = nullptr;   // addresses two calls of this segment conflict on: preempt there
   std::vector<char> used;
   uint32_t seg_index = 0;
   std::vector<TraceRec> trace;
@@ -405,16 +412,28 @@ static void handoff(int me, int target)
 extern "C" int hsim_in_call() { return tl_in_call ? 1 : 0; }
 
 // called (through sim/tsan_shim.cc) before every instrumented memory access of library code
-extern "C" void hsim_yield(const void * addr, int /*is_write*/)
+extern "C" void hsim_yield(const void * addr, int is_write)
   {
-  if (!tl_in_call || !g_fine.active) return;
+  if (!tl_in_call) return;
   uintptr_t a = reinterpret_cast<uintptr_t>(addr);
   if (a >= tl_stack_lo && a < tl_stack_hi) return;             // the caller's own stack: private by construction
+  if (g_log_access && g_access.size() < ACCESS_TOTAL && g_access.size() - tl_access_begin < ACCESS_PER_CALL)
+    {   // remember each distinct (address, kind) this call touches: the zygote uses it to aim concurrency at real conflicts
+    bool seen = false;
+    for (size_t k = tl_access_begin; k < g_access.size() && !seen; ++k) seen = g_access[k].addr == a && g_access[k].is_write >= static_cast<uint32_t>(is_write);
+    if (!seen) g_access.push_back(AccessRec{static_cast<uint32_t>(tl_item), static_cast<uint32_t>(is_write), a});
+    }
+  if (!g_fine.active) return;
   uint32_t idx = tl_yield_idx++;
   ++g_fine.yields;
   int me = tl_client, target = -1;
   if (g_fine.scripted) target = script_lookup(static_cast<uint8_t>(me), idx);
-  else if (g_fine.budget > 0 && g_fine.den && g_fine.rng.below(g_fine.den) == 0) target = pick_runnable(me, true);
+  else if (g_fine.budget > 0)
+    {
+    bool hot = false;
+    if (g_fine.focus) for (uint64_t f : *g_fine.focus) if (f == a) hot = true;
+    if (hot ? g_fine.rng.below(2) == 0 : (g_fine.den && g_fine.rng.below(g_fine.den) == 0)) target = pick_runnable(me, true);
+    }
   if (target < 0 || target == me || target >= g_fine.nclients) return;
   if (g_fine.state[target] != ST_PENDING && g_fine.state[target] != ST_RUNNING) return;
   if (!g_fine.scripted) { --g_fine.budget; g_fine.trace.push_back(TraceRec{g_fine.seg_index, static_cast<uint32_t>(me), idx, static_cast<uint32_t>(target)}); }
@@ -434,13 +453,14 @@ extern "C" void hsim_wait_until(int (*pred)(void *), void * arg)
     }
   }
 
+static const Item * g_items_base = nullptr;
 static Res call_once(const Item & it)
   {
   Res r{255, 0, 0};
   int sig = sigsetjmp(tl_env, 1);
   if (sig == 0)
     {
-    tl_armed = 1; tl_yield_idx = 0; tl_in_call = true;
+    tl_armed = 1; tl_yield_idx = 0; tl_access_begin = g_access.size(); tl_item = static_cast<int>(&it - g_items_base); tl_in_call = true;
     uint64_t v = g_ops[it.op].fn(it.a, it.b);
     tl_in_call = false; tl_armed = 0;
     r.status = 0; r.bits = v;
@@ -501,6 +521,7 @@ static void write_all(int fd, const void * p, size_t n)
     if (pthread_create(&th[c], nullptr, client_main, &g_slots[c]) != 0) _exit(3);
     ++g_threads_started;
     }
+  g_items_base = sc.items.data(); g_log_access = sc.log_access;
   g_fine.nclients = sc.clients; g_fine.scripted = scripted; g_fine.rng = Rng(sched_seed ^ 0x9e3779b97f4a7c15ull);
   std::vector<Res> out(sc.items.size(), Res{255, 0, 0});
   for (size_t si = 0; si < sc.segs.size(); ++si)
@@ -528,7 +549,7 @@ static void write_all(int fd, const void * p, size_t n)
       }
     for (int c = 0; c < 8; ++c) g_fine.state[c] = ST_OUT;
     for (int k : g.items) { const Item & it = sc.items[k]; g_slots[it.client].item = &it; g_fine.state[it.client] = ST_PENDING; }
-    g_fine.den = g.den; g_fine.budget = g.budget; g_fine.script = &g.script; g_fine.used.assign(g.script.size(), 0);
+    g_fine.den = g.den; g_fine.budget = g.budget; g_fine.script = &g.script; g_fine.focus = g.focus.empty() ? nullptr : &g.focus; g_fine.used.assign(g.script.size(), 0);
     int first = -1;
     if (scripted)
       {
@@ -547,17 +568,18 @@ static void write_all(int fd, const void * p, size_t n)
     g_fine.active = false;
     for (int k : g.items) out[k] = g_slots[sc.items[k].client].res;
     }
-  uint64_t hdr[4] = {g_fine.trace.size(), g_fine.yields, g_fine.switches, g_threads_started};
+  uint64_t hdr[5] = {g_fine.trace.size(), g_fine.yields, g_fine.switches, g_threads_started, g_access.size()};
   write_all(fd, out.data(), out.size() * sizeof(Res));
   write_all(fd, hdr, sizeof hdr);
   if (!g_fine.trace.empty()) write_all(fd, g_fine.trace.data(), g_fine.trace.size() * sizeof(TraceRec));
+  if (!g_access.empty()) write_all(fd, g_access.data(), g_access.size() * sizeof(AccessRec));
   _exit(0);
   }
 
 // ---------------------------------------------------------------------------------------------
 // zygote side
 static uint64_t g_forks = 0, g_hung = 0, g_yields_total = 0, g_switches_total = 0, g_threads_total = 0, g_threads_max = 0;
-struct Outcome { std::vector<Res> res; std::vector<TraceRec> trace; bool complete; };
+struct Outcome { std::vector<Res> res; std::vector<TraceRec> trace; std::vector<AccessRec> access; bool complete; };
 
 static bool read_all(int fd, void * p, size_t n, int timeout_ms)
   {
@@ -587,12 +609,14 @@ static Outcome run_schedule(const Schedule & sc, bool scripted, uint64_t sched_s
   if (pid == 0) { close(pf[0]); child_execute(sc, scripted, sched_seed, pf[1]); }
   close(pf[1]);
   Outcome o; o.res.assign(sc.items.size(), Res{255, 0, 0}); o.complete = false;
-  uint64_t hdr[4] = {0, 0, 0, 0};
+  uint64_t hdr[5] = {0, 0, 0, 0, 0};
   const int limit_ms = 10000;
   if (read_all(pf[0], o.res.data(), o.res.size() * sizeof(Res), limit_ms) && read_all(pf[0], hdr, sizeof hdr, limit_ms))
     {
     o.trace.resize(hdr[0]);
-    if (hdr[0] == 0 || read_all(pf[0], o.trace.data(), hdr[0] * sizeof(TraceRec), limit_ms)) o.complete = true;
+    o.access.resize(hdr[4]);
+    if ((hdr[0] == 0 || read_all(pf[0], o.trace.data(), hdr[0] * sizeof(TraceRec), limit_ms)) &&
+        (hdr[4] == 0 || read_all(pf[0], o.access.data(), hdr[4] * sizeof(AccessRec), limit_ms))) o.complete = true;
     g_yields_total += hdr[1]; g_switches_total += hdr[2]; g_threads_total += hdr[3]; if (hdr[3] > g_threads_max) g_threads_max = hdr[3];
     }
   close(pf[0]);
@@ -780,6 +804,7 @@ struct Stats
   uint64_t long_runs = 0, very_long_runs = 0, churn_runs = 0, respawns = 0, max_plan_len = 0;
   uint64_t alias_same[AL_N] = {0}, alias_cross[AL_N] = {0};
   uint64_t calls = 0, runs = 0, nontrivial = 0, iso_checks = 0, disagreements = 0, signals_seen = 0, lost = 0, findings = 0, unstable = 0;
+  uint64_t access_records = 0, nonstack_writes = 0, conflict_pairs = 0, plans_with_conflicts = 0, directed_execs = 0;
   uint64_t fine_execs = 0, concurrent_segments = 0, concurrent_calls = 0, preemptions = 0, distinct_traces = 0;
   uint64_t digest = 0;
   std::unordered_set<uint64_t> adjacency, traces;
@@ -839,6 +864,9 @@ static void print_stats(const Stats & st, const char * mode, uint64_t seed0)
                   ",\"concurrent_calls\":" + std::to_string(st.concurrent_calls) + ",\"yield_points\":" + std::to_string(g_yields_total) +
                   ",\"preemptions\":" + std::to_string(st.preemptions) + ",\"baton_handoffs\":" + std::to_string(g_switches_total) +
                   ",\"distinct_decision_traces\":" + std::to_string(st.traces.size()) +
+                  ",\"access_records\":" + std::to_string(st.access_records) + ",\"nonstack_writes_observed\":" + std::to_string(st.nonstack_writes) +
+                  ",\"conflicting_call_pairs\":" + std::to_string(st.conflict_pairs) + ",\"plans_with_conflicts\":" + std::to_string(st.plans_with_conflicts) +
+                  ",\"directed_executions\":" + std::to_string(st.directed_execs) +
                   ",\"long_runs\":" + std::to_string(st.long_runs) + ",\"very_long_runs\":" + std::to_string(st.very_long_runs) + ",\"max_plan_len\":" + std::to_string(st.max_plan_len) +
                   ",\"churn_runs\":" + std::to_string(st.churn_runs) + ",\"planned_respawns\":" + std::to_string(st.respawns) +
                   ",\"threads_started\":" + std::to_string(g_threads_total) + ",\"max_threads_in_one_execution\":" + std::to_string(g_threads_max) +
@@ -905,6 +933,51 @@ static int do_scan_serial(uint64_t seed0, uint64_t count, const char * hashfile,
   return 0;
   }
 
+// calls i < j of different callers conflict when one writes a non-stack address the other reads or writes
+struct Conflict { int i, j; std::vector<uint64_t> addrs; };
+static std::vector<Conflict> find_conflicts(const Plan & p, const std::vector<AccessRec> & acc, uint64_t & writes_seen)
+  {
+  std::map<uint64_t, std::vector<std::pair<int, bool>>> by_addr;     // addr -> (item, wrote?)
+  writes_seen = 0;
+  for (const AccessRec & a : acc) { by_addr[a.addr].push_back({static_cast<int>(a.item), a.is_write != 0}); if (a.is_write) ++writes_seen; }
+  std::map<std::pair<int, int>, std::vector<uint64_t>> pairs;
+  for (auto & kv : by_addr)
+    {
+    auto & v = kv.second;
+    bool any_write = false; for (auto & e : v) any_write = any_write || e.second;
+    if (!any_write || v.size() > 400) continue;
+    for (size_t x = 0; x < v.size(); ++x) for (size_t y = x + 1; y < v.size(); ++y)
+      {
+      if (!(v[x].second || v[y].second)) continue;
+      int i = std::min(v[x].first, v[y].first), j = std::max(v[x].first, v[y].first);
+      if (i == j || i < 0 || j >= static_cast<int>(p.items.size()) || p.items[i].client == p.items[j].client) continue;
+      auto & ad = pairs[{i, j}];
+      if (ad.size() < 8) ad.push_back(kv.first);
+      if (pairs.size() > 4000) break;
+      }
+    }
+  std::vector<Conflict> out;
+  for (auto & kv : pairs) out.push_back(Conflict{kv.first.first, kv.first.second, kv.second});
+  return out;
+  }
+
+// plan order, one call at a time, except that the two conflicting calls are in flight together (the later one is
+// pulled forward) and the scheduler prefers to preempt at the addresses they conflict on
+static Schedule directed_schedule(const Plan & p, const Conflict & c, uint64_t sseed)
+  {
+  Rng r(sseed ^ 0x6a09e667f3bcc909ull);
+  Schedule s; s.clients = p.clients; s.items = p.items;
+  for (size_t k = 0; k < p.items.size(); ++k)
+    {
+    if (static_cast<int>(k) == c.j) continue;
+    Segment g; g.den = 16; g.budget = 0; g.items = {static_cast<int>(k)};
+    if (static_cast<int>(k) == c.i) { g.items.push_back(c.j); g.focus = c.addrs; g.den = 8; g.budget = 2 + static_cast<int>(r.below(5)); }
+    for (auto & e : p.respawn) if (e.first == k || (static_cast<int>(k) == c.i && static_cast<int>(e.first) == c.j)) g.respawn.push_back(e.second);
+    s.segs.push_back(g);
+    }
+  return s;
+  }
+
 // fine mode: whole-call reference execution vs executions with concurrent segments and seeded preemption
 static int do_scan_fine(uint64_t seed0, uint64_t count, const char * hashfile, uint64_t max_findings)
   {
@@ -918,13 +991,22 @@ static int do_scan_fine(uint64_t seed0, uint64_t count, const char * hashfile, u
     size_t n = p.items.size();
     std::vector<int> fwd(n);
     for (size_t i = 0; i < n; ++i) fwd[i] = static_cast<int>(i);
-    std::vector<Res> ra = run_serial(p.items, fwd, p.clients, p.respawn);
-    account_plan(st, p, ra, seed, 1 + variants);
+    Schedule ref = serial_schedule(p.items, fwd, p.clients, p.respawn); ref.log_access = true;
+    Outcome oref = run_schedule(ref, true, 0);
+    std::vector<Res> ra = oref.res;
+    uint64_t writes_seen = 0;
+    std::vector<Conflict> conflicts = find_conflicts(p, oref.access, writes_seen);
+    st.access_records += oref.access.size(); st.nonstack_writes += writes_seen; st.conflict_pairs += conflicts.size();
+    if (!conflicts.empty()) ++st.plans_with_conflicts;
+    int directed = conflicts.empty() ? 0 : static_cast<int>(std::min<size_t>(4, conflicts.size()));
+    account_plan(st, p, ra, seed, 1 + variants + directed);
     bool found = false;
-    for (int v = 0; v < variants && !found; ++v)
+    for (int v = 0; v < variants + directed && !found; ++v)
       {
       uint64_t sseed = mix64(seed, 0x1000 + static_cast<uint64_t>(v));
-      Schedule sc = fine_schedule(p, sseed);
+      Schedule sc;
+      if (v < variants) sc = fine_schedule(p, sseed);
+      else { Rng pick(sseed); sc = directed_schedule(p, conflicts[pick.below(conflicts.size())], sseed); ++st.directed_execs; }
       Outcome oc = run_schedule(sc, false, sseed);
       ++st.fine_execs;
       if (!oc.complete) continue;
